@@ -122,6 +122,10 @@ def cases(ctx):
     for m in ("jmp", "bez", "beq", "blt"):
         for v in (2**31, 2**31 + 7, 2**32, 2**40, -2**31 - 1, 2**31 - 1):
             sdk.append({"kind": "nv-branch", "mnemonic": m, "value": v, "expect": "in" if -2**31 <= v <= 2**31 - 1 else "out"})
+    # measurement in a rotated basis (the non-default keyword of Qubit.measure): numerators outside 0..255 are refused, not wrapped
+    for v in (-8, -1, -32, 256, 300, 24, 0, 255):
+        for slot in (0, 1, 2):
+            sdk.append({"kind": "sdk-meas-basis", "value": v, "slot": slot, "expect": "in" if 0 <= v <= 255 else "out"})
     # rotations handed to the NV transpiler on the hardware setting (denominators 0..4 only): a denominator or numerator the
     # hardware format cannot hold is refused, also when it is negative
     for m in ("rot_x", "rot_y", "rot_z"):
@@ -429,6 +433,28 @@ def run_case(ctx, case):
             q = Qubit(conn)
             getattr(q, "rot_" + case["axis"])(n=_typed(case["n"], case.get("vtype")), d=_typed(case["d"], case.get("vtype")))
         sdk(prog, lambda descr, subs: any(d[0] == mn and d[1][1:] == [case["n"], case["d"]] for d in descr))
+    elif kind == "sdk-meas-basis":
+        from vf.harness.pipeline import Pipe
+        v, slot = case["value"], case["slot"]
+        rots = [1, 2, 3]
+        rots[slot] = v
+        ctx.count("sdk_measurements_in_a_rotated_basis")
+        try:
+            p_ = Pipe(script=[0, 0], max_qubits=2)
+            with p_.conn as conn:
+                q = Qubit(conn)
+                q.measure(basis_rotations=tuple(rots))
+                conn.flush()
+                descr = [codec.describe_instr(i) for i in conn.subroutines[-1].instructions]
+        except Exception:
+            ctx.count("out_of_range_rejected" if out else "typed_in_range_rejected_loudly")
+            return ctx.case(case, True)
+        got = [d[1][2:5] for d in descr if d[0] == "meas_basis"]
+        if out or got != [rots]:
+            ctx.fail(case, f"silently altered: measure(basis_rotations={tuple(rots)}) was compiled and sent without error as meas_basis with rotations {got}")
+        else:
+            ctx.count("in_range_twins_ok")
+        return ctx.case(case, True)
     elif kind == "nv-hw-rot":
         from netqasm.lang import operand as op_
         from netqasm.lang.encoding import RegisterName
